@@ -234,4 +234,64 @@ class Wrap(Part):
                     ctx.cls("overlapping-spans")
 
 
-PARTS = [Wrap()]
+
+class WordTemplate(Part):
+    name = "word-template"
+    custom = True
+    exhaustive = True
+    rule = ("for every code point c of the Basic Multilingual Plane that is not white space (and every 64th astral one): the text 'ab foo' c 'bar' wrapped with fold overflow at exactly "
+            "the width of the word 'foo' c 'bar' gives the lines 'ab' and 'foo' c 'bar' - the word moves to the next line whole, whatever character it contains; "
+            "non-trivial = c is not alphanumeric")
+    budget = {"quick": (16, 1), "thorough": (16, 1)}
+
+    def run_shard(self, tier, shard, nshards, seed, stats, deadline, known):
+        import time as _t
+        from rich.text import Text
+        from ..core import Ctx
+
+        con = TV.console()
+        ctx = Ctx()
+        n = nt = 0
+        bad = None
+        cps = [cp for cp in range(0x21, 0x10000) if not 0xD800 <= cp <= 0xDFFF] + list(range(0x10000, 0x110000, 64 if tier == "quick" else 8))
+        for i, cp in enumerate(cps):
+            if i % nshards != shard:
+                continue
+            c = chr(cp)
+            if c.isspace() or c in "\x07\x08\x0b\x0c\r":
+                continue
+            if not self.one(ctx, con, Text, c):
+                bad = cp
+                break
+            n += 1
+            if not c.isalnum():
+                nt += 1
+            if n % 4000 == 0 and _t.time() > deadline:
+                stats.capped = True
+                break
+        stats.evaluations += n
+        stats.nontrivial_count_distinct += nt
+        if not stats.capped:
+            stats.done += 1
+        stats.samples.append((1, {"shard": shard, "code_points": len(cps) // nshards, "example": "ab foo\u00adbar"}, "range"))
+        for v in ctx.violations:
+            stats.found.setdefault(v.sig, {"spec": {"cp": bad}, "clause": v.clause, "detail": v.detail, "size": 1, "part": self.name})
+
+    @staticmethod
+    def one(ctx, con, Text, c):
+        word = "foo" + c + "bar"
+        width = OC.width(word)
+        lines = [l.plain.rstrip(" ") for l in sut(Text("ab " + word).wrap, con, width, overflow="fold")]
+        if lines != ["ab", word]:
+            ctx.violation("break", "C02/break/word-template", "Text(%r) wrapped at %d cells (the width of its second word) gives %r; a word that fits the width is never broken" % ("ab " + word, width, lines))
+            return False
+        return True
+
+    def replay(self, spec, ctx):
+        from rich.text import Text
+
+        if spec.get("cp") is not None:
+            self.one(ctx, TV.console(), Text, chr(spec["cp"]))
+
+
+PARTS = [Wrap(), WordTemplate()]
